@@ -392,9 +392,16 @@ theorem sciCLayout_ok_facts (fmt : Format) (feats : Features) (ds : List Nat) (e
 
 /-! ## `algorithm.rs` -/
 
+theorem minExactDigits_succ (c : Nat) (o : WOpts) :
+    minExactDigits (c + 1) o = max (minExactDigits c o) (c + 1) := by
+  unfold minExactDigits; split <;> omega
+
+/-- in the `carried ∧ k = 1` branch the `0` after the point counts as a written digit (`digit_count += 1`):
+the padding target is `minExactDigits (count + 1) o = max exact (count + 1)` -/
 def needNegN (nd n0 count : Nat) (carried trim : Bool) (k exact : Nat) : Nat :=
   max (k + 1 + max nd n0)
-    (if carried = true ∧ k + 1 = 2 then (if trim = true then 0 else max 3 (needPad 3 count exact))
+    (if carried = true ∧ k + 1 = 2 then
+       (if trim = true then 0 else max 3 (needPad 3 (count + 1) (max exact (count + 1))))
      else if carried = true then needPad (k + 1) count exact
      else needPad (k + 1 + count) count exact)
 
@@ -409,13 +416,14 @@ theorem negN_panic_iff (nd : Nat) (ds : List Nat) (e : Int) (o : WOpts) (b : WBu
   obtain ⟨ds', c⟩ := tr
   dsimp only at hc1 hc2 ⊢
   generalize e.natAbs = k at hk ⊢
+  rw [minExactDigits_succ]
   generalize minExactDigits ds'.length o = ex
   by_cases c1 : c = true
   · subst c1
     by_cases c2 : k + 1 = 2
     · by_cases c3 : o.trim = true
       · panic_tac [c2, c3, and_self]
-      · by_cases hc : ds'.length < ex
+      · by_cases hc : ds'.length + 1 < max ex (ds'.length + 1)
         · panic_tac [c2, c3, hc, and_self]
         · panic_tac [c2, c3, hc, and_self]
     · by_cases hc : ds'.length < ex
@@ -442,6 +450,7 @@ theorem negN_ok_facts (nd : Nat) (ds : List Nat) (e : Int) (o : WOpts) (b : WBuf
   obtain ⟨ds', c⟩ := tr
   dsimp only at hc1 hc2 h ⊢
   generalize e.natAbs = k at h ⊢
+  rw [minExactDigits_succ] at h
   generalize minExactDigits ds'.length o = ex at h ⊢
   by_cases c1 : c = true
   · subst c1
